@@ -377,7 +377,7 @@ func (c *child) runCase(d caseDesc) caseResult {
 		if b.tok != nil {
 			res.Rec = tokRecord(b.tok, first)
 		} else if b.abs != "" {
-			res.Rec = fmt.Sprintf("7 %d %d %s", worst, len(b.steps), b.abs)
+			res.Rec = fmt.Sprintf("7 %d %d %d %s", worst, len(b.steps), first.class, b.abs)
 		} else {
 			res.Rec = fmt.Sprintf("1 %d %d %d", worst, len(b.steps), h.Sum64())
 		}
@@ -394,7 +394,7 @@ func (c *child) runCase(d caseDesc) caseResult {
 		res.Note += fmt.Sprintf(" ; heap grew by %d MB", (peak-base)>>20)
 		if b.tok == nil && b.direct == nil {
 			if b.abs != "" {
-				res.Rec = fmt.Sprintf("7 %d %d %s", clMemory, len(b.steps), b.abs)
+				res.Rec = fmt.Sprintf("7 %d %d %d %s", clMemory, len(b.steps), clMemory, b.abs)
 			} else {
 				res.Rec = fmt.Sprintf("1 %d %d 0", clMemory, len(b.steps))
 			}
@@ -720,7 +720,7 @@ func main() {
 	// systematic part: the variants of every generator (thinned in the quick tier)
 	for _, g := range generators {
 		step := 1
-		if o.Tier != "thorough" && g.variants > 40 {
+		if o.Tier != "thorough" && g.variants > 40 && g.name != "tok_read" && g.name != "d_readpage" {
 			step = g.variants/40 + 1
 		}
 		off := 0
